@@ -59,11 +59,13 @@ class Scenario:
             shutil.rmtree(d, ignore_errors=True)
             shutil.rmtree(self.pristine + ".x%d" % i, ignore_errors=True)
 
-    def run(self, sysstep, args, kill=None, fault=None, timeout=60):
+    def run(self, sysstep, args, kill=None, fault=None, timeout=60, sig=None):
         log = os.path.join(self.base, "sys.log")
         cmd = [sysstep, "-o", log]
         if kill is not None:
             cmd += ["-k", str(kill)]
+            if sig:
+                cmd += ["-s", str(sig)]       # a catchable signal (SIGTERM / SIGINT): `kill <pid>`, Ctrl-C, a batch system
         if fault is not None:
             cmd += ["-f", "%d:%d" % fault]
         cmd += ["--", self.proj.dud_bin] + args
